@@ -2,6 +2,7 @@
 //!                         [--replay FILE] [--digests FILE] [--per-child N]
 use crate::e3_core::*;
 use crate::e3_hist;
+use crate::e3_times;
 use vkit::isolate::{self, Outcome};
 use vkit::serde_json::{json, Value};
 
@@ -245,12 +246,139 @@ pub fn main_hist(a: &Args) -> i32 {
     0
 }
 
+fn enumerate_times(depth: usize, mut emit: impl FnMut(&[e3_times::Op])) {
+    fn rec(depth: usize, alive: bool, cur: &mut Vec<e3_times::Op>, emit: &mut dyn FnMut(&[e3_times::Op])) {
+        if cur.len() == depth {
+            emit(cur);
+            return;
+        }
+        for o in e3_times::ALPHABET.iter() {
+            let m = e3_times::Model { alive, count: 0, lifetimes: 0 };
+            if m.enabled(o) {
+                let alive2 = match o {
+                    e3_times::Op::Begin => true,
+                    e3_times::Op::End | e3_times::Op::Panic => false,
+                    // a propagating call may or may not end the lifetime; the harness decides at run
+                    // time, so for enumeration treat Mu/Xu as "stays alive" and let run_history cut
+                    // the rest of the lifetime when the panic propagates
+                    _ => alive,
+                };
+                cur.push(*o);
+                rec(depth, alive2, cur, emit);
+                cur.pop();
+            }
+        }
+    }
+    rec(depth, false, &mut Vec::new(), &mut emit);
+}
+
+pub fn main_times(a: &Args) -> i32 {
+    let n: usize = a.extra.iter().position(|x| x == "--n").map(|i| a.extra[i + 1].parse().unwrap()).unwrap_or(1);
+    let threads = a.extra.iter().any(|x| x == "--threads");
+    let mut hists: Vec<Vec<e3_times::Op>> = Vec::new();
+    if let Some(f) = &a.replay {
+        let txt = std::fs::read_to_string(f).expect("replay file");
+        let v: Value = vkit::serde_json::from_str(&txt).expect("replay json");
+        let h: Vec<e3_times::Op> = v["case"]["history"].as_array().expect("history").iter().map(|s| e3_times::op_from_str(s.as_str().unwrap()).expect("op")).collect();
+        hists.push(h.clone());
+        hists.push(h);
+    } else {
+        let mut idx = 0usize;
+        enumerate_times(a.depth, |h| {
+            if idx % a.shard.1 == a.shard.0 {
+                hists.push(h.to_vec());
+            }
+            idx += 1;
+        });
+    }
+    // every history starts from the pristine process image (static counters live in the image)
+    let outcomes = isolate::run(hists.len(), 1, 30_000, |i| {
+        let r = e3_times::run_history(n, &hists[i], threads);
+        let v = json!({"d": r.digest, "steps": r.steps,
+            "v": r.violations.iter().map(|x| json!({"prop": x.prop, "key": x.key, "step": x.step, "what": x.what})).collect::<Vec<_>>()});
+        (vkit::serde_json::to_vec(&v).unwrap(), false)
+    });
+    let mut steps = 0u64;
+    let mut viols: Vec<Value> = Vec::new();
+    let mut seen_keys: std::collections::BTreeMap<(String, String), usize> = Default::default();
+    let mut distinct: std::collections::HashSet<u64> = Default::default();
+    let mut crashed = 0u64;
+    let mut digests: Vec<(u64, bool)> = Vec::new();
+    for (i, o) in outcomes.iter().enumerate() {
+        let hist_json: Vec<&str> = hists[i].iter().map(e3_times::op_to_str).collect();
+        let mut add = |prop: &str, key: &str, step: u64, what: String, viols: &mut Vec<Value>| {
+            let c = seen_keys.entry((prop.to_string(), key.to_string())).or_insert(0);
+            *c += 1;
+            if *c <= 3 {
+                viols.push(json!({"prop": prop, "key": key, "step": step, "what": what, "history": hist_json, "n": n}));
+            }
+        };
+        match o {
+            Outcome::Done(bytes) => {
+                let v: Value = vkit::serde_json::from_slice(bytes).unwrap();
+                steps += v["steps"].as_u64().unwrap();
+                let d = v["d"].as_u64().unwrap();
+                distinct.insert(d);
+                digests.push((d, !v["v"].as_array().unwrap().is_empty()));
+                for x in v["v"].as_array().unwrap() {
+                    add(x["prop"].as_str().unwrap(), x["key"].as_str().unwrap(), x["step"].as_u64().unwrap(), x["what"].as_str().unwrap().to_string(), &mut viols);
+                }
+            }
+            Outcome::Signal(sig, prog) => {
+                crashed += 1;
+                digests.push((0, true));
+                let k = if *sig == 6 { "process-aborted".to_string() } else { format!("process-killed-signal-{sig}") };
+                add("C05", &k, *prog, format!("the process died with signal {sig} at operation {prog} of this history (an abort is what a second panic during unwinding produces)"), &mut viols);
+            }
+            Outcome::Exit(code, prog) => {
+                crashed += 1;
+                digests.push((0, true));
+                add("C05", &format!("process-exit-{code}"), *prog, format!("the process exited with status {code} at operation {prog}"), &mut viols);
+            }
+            Outcome::Timeout(prog) => {
+                crashed += 1;
+                digests.push((0, true));
+                add("C05", "hang", *prog, format!("no progress for 30 s at operation {prog} (the process-wide guard was not released?)"), &mut viols);
+            }
+        }
+    }
+    if a.replay.is_some() && digests.len() == 2 && digests[0] != digests[1] {
+        viols.push(json!({"prop": "MACHINERY", "key": "nondeterministic-replay", "step": 0, "what": "two runs of the same history gave different observations", "history": []}));
+    }
+    if let Some(f) = &a.digests {
+        let mut s = String::new();
+        for (i, d) in digests.iter().enumerate() {
+            s.push_str(&format!("{} {:016x} {}\n", hists[i].iter().map(e3_times::op_to_str).collect::<Vec<_>>().join(","), d.0, d.1 as u8));
+        }
+        std::fs::write(f, s).unwrap();
+    }
+    let samples: Vec<Vec<&str>> = hists.iter().step_by((hists.len() / 4).max(1)).take(4).map(|h| h.iter().map(e3_times::op_to_str).collect()).collect();
+    // distinct prefixes: every node of the enumeration tree
+    let mut prefixes = 0u64;
+    if a.shard.0 == 0 && a.replay.is_none() {
+        for d in 1..=a.depth {
+            enumerate_times(d, |_| prefixes += 1);
+        }
+    }
+    let out = json!({
+        "engine": "e3", "family": "times", "mounted": crate::envx::MOUNTED, "n": n, "threads": threads,
+        "depth": a.depth, "shard": [a.shard.0, a.shard.1], "alphabet": e3_times::ALPHABET.iter().map(e3_times::op_to_str).collect::<Vec<_>>(),
+        "histories": hists.len(), "steps": steps, "prefixes": prefixes, "model_states": 0,
+        "distinct_outcomes": distinct.len(), "crashed": crashed,
+        "violation_counts": seen_keys.iter().map(|((p, k), c)| json!({"prop": p, "key": k, "count": c})).collect::<Vec<_>>(),
+        "violations": viols, "samples": samples,
+    });
+    println!("{}", vkit::serde_json::to_string(&out).unwrap());
+    0
+}
+
 pub fn main() {
     vkit::proc::ensure_no_aslr();
     isolate::quiet_panics();
     let a = parse_args();
     let code = match a.family.as_str() {
         "hist" => main_hist(&a),
+        "times" => main_times(&a),
         other => {
             eprintln!("e3: unknown family {other:?}");
             2
